@@ -118,7 +118,7 @@ def write_turbomole(filename, cell):
     lines += "$lattice\n"
     lattice = cell.get_cell()
     for lattvec in lattice:
-        lines += ("%12.8f" * 3 + "\n") % tuple(lattvec)
+        lines += (" %12.8f" * 3 + "\n") % tuple(lattvec)
     lines += "$end\n"
     f_control = open(os.path.join(filename, "control"), "w")
     f_control.write(lines)
@@ -129,7 +129,7 @@ def write_turbomole(filename, cell):
     positions = cell.get_positions()
     lines = "$coord\n"
     for atom, pos in zip(symbols, positions):
-        lines += ("%16.12f" * 3 + "   %s\n") % (pos[0], pos[1], pos[2], atom.lower())
+        lines += (" %16.12f" * 3 + "   %s\n") % (pos[0], pos[1], pos[2], atom.lower())
     lines += "$end\n"
     f_coord = open(os.path.join(filename, "coord"), "w")
     f_coord.write(lines)
